@@ -1050,13 +1050,20 @@ void tickit_term_chpen(TickitTerm *tt, const TickitPen *pen)
     if(!tickit_pen_has_attr(pen, attr))
       continue;
 
-    if(tickit_pen_has_attr(tt->pen, attr) && tickit_pen_equiv_attr(tt->pen, pen, attr))
+    int index = -1;
+    bool convert = (attr == TICKIT_PEN_FG || attr == TICKIT_PEN_BG) &&
+       (index = tickit_pen_get_colour_attr(pen, attr)) >= tt->colors;
+    if(convert)
+      index = convert_colour(index, tt->colors);
+
+    /* The cached pen holds what was sent, i.e. the converted index */
+    if(tickit_pen_has_attr(tt->pen, attr) &&
+       (convert ? (tickit_pen_get_colour_attr(tt->pen, attr) == index &&
+                   !tickit_pen_has_colour_attr_rgb8(tt->pen, attr))
+                : tickit_pen_equiv_attr(tt->pen, pen, attr)))
       continue;
 
-    int index;
-    if((attr == TICKIT_PEN_FG || attr == TICKIT_PEN_BG) &&
-       (index = tickit_pen_get_colour_attr(pen, attr)) >= tt->colors) {
-      index = convert_colour(index, tt->colors);
+    if(convert) {
       tickit_pen_set_colour_attr(tt->pen, attr, index);
       tickit_pen_set_colour_attr(delta, attr, index);
     }
@@ -1076,13 +1083,20 @@ void tickit_term_setpen(TickitTerm *tt, const TickitPen *pen)
   TickitPen *delta = tickit_pen_new();
 
   for(TickitPenAttr attr = 1; attr < TICKIT_N_PEN_ATTRS; attr++) {
-    if(tickit_pen_has_attr(tt->pen, attr) && tickit_pen_equiv_attr(tt->pen, pen, attr))
+    int index = -1;
+    bool convert = (attr == TICKIT_PEN_FG || attr == TICKIT_PEN_BG) &&
+       (index = tickit_pen_get_colour_attr(pen, attr)) >= tt->colors;
+    if(convert)
+      index = convert_colour(index, tt->colors);
+
+    /* The cached pen holds what was sent, i.e. the converted index */
+    if(tickit_pen_has_attr(tt->pen, attr) &&
+       (convert ? (tickit_pen_get_colour_attr(tt->pen, attr) == index &&
+                   !tickit_pen_has_colour_attr_rgb8(tt->pen, attr))
+                : tickit_pen_equiv_attr(tt->pen, pen, attr)))
       continue;
 
-    int index;
-    if((attr == TICKIT_PEN_FG || attr == TICKIT_PEN_BG) &&
-       (index = tickit_pen_get_colour_attr(pen, attr)) >= tt->colors) {
-      index = convert_colour(index, tt->colors);
+    if(convert) {
       tickit_pen_set_colour_attr(tt->pen, attr, index);
       tickit_pen_set_colour_attr(delta, attr, index);
     }
